@@ -89,6 +89,9 @@ pub const REGEXES: &[&str] = &[
     "\\b(\\.\\w+)", "\\B(\\d+)", "(\\w+)\\b", "\\b(o+)", "(l+)\\B", "\\B(\\w)\\b",
     // valid patterns whose compiled program is large (counted repetition of Unicode classes)
     "\\w{40}", "^\\pL{30,}$", "[\\w.+-]{1,64}@[\\w-]{1,63}\\.\\w{2,24}", "\\w{2,60}\\d",
+    // an anchored branch in a top-level alternation (the anchor binds tighter than |); upper-case escapes and capitalised
+    // group names (their meaning changes if the pattern text is case-folded); groups that exist but may not take part
+    "^a|b", "^\\s+|\\s+$", "^h|o|l$", "\\D", "\\W+", "\\S+", "\\Bo", "(?P<Name>\\w+)", "[A-z]", "(a)?b", "(\\d+)-|([a-z]+)", "(x)?(o)",
 ];
 pub const BAD_REGEXES: &[&str] = &["(", "[a", "*a", "a**", "(?P<x"];
 
@@ -96,7 +99,7 @@ pub fn regex(rng: &mut Rng) -> String {
     if rng.chance(1, 25) { rng.pick(BAD_REGEXES).to_string() } else { rng.pick(REGEXES).to_string() }
 }
 
-pub const REPLACEMENTS: &[&str] = &["X", "", "$0", "[$1]", "${x}", "$1$2", "<$0>", "é", "-", "$$", "a b"];
+pub const REPLACEMENTS: &[&str] = &["X", "", "$0", "[$1]", "${x}", "$1$2", "<$0>", "é", "-", "$$", "a b", "<${Name}>"];
 pub fn flags(rng: &mut Rng) -> String {
     let mut f: Vec<char> = Vec::new();
     for c in ['g', 'i', 'm', 's'] { if rng.chance(1, 3) { f.push(c); } }
